@@ -234,6 +234,32 @@ func checkFLine(rep *Report, w *CaseW, line, term, after string) {
 	x := newRun(&in, nil).obj.(*oFLine)
 	got := res[0].Calls[0]
 	replay := map[string]interface{}{"case": json.RawMessage(caseJSON(c))}
+	// the same line fed in pieces, and on an object that parsed another first line before and was Reset
+	if len(text) > 2 {
+		var every []int
+		for k := 1; k < len(text); k++ {
+			every = append(every, k)
+		}
+		for _, cuts := range [][]int{every, {len(text) / 2}, {min(15, len(text)-1)}} {
+			c3 := inputCase(&in, cuts)
+			out3, r3 := runCase(c3)
+			w.emitCase(c3, out3)
+			if len(r3) == 1 && r3[0].Panic == "" {
+				oracleResume(rep, &in, cuts, &r3[0])
+			}
+		}
+		prev := "SIP/2.0 486 Busy Here\r\nV"
+		if len(line) > 0 && (line[0] == 'S' || line[0] == 's') {
+			prev = "INVITE sip:a@b SIP/2.0\r\nV"
+		}
+		h := &Case{Kind: kFLine, Ops: []Op{{Buf: []byte(prev)}, {Reset: true}, {Buf: []byte(text)}}}
+		outh, rh := runCase(h)
+		w.emitCase(h, outh)
+		if len(rh) == 3 && rh[2].Panic == "" && (len(rh[2].Calls) != 1 || rh[2].Calls[0] != got || !eqObs(rh[2].Obs.V, res[0].Obs.V)) {
+			rep.violate(fmt.Sprintf("ParseFLine(%q) on a PFLine that was used for another first line and Reset differs from a new PFLine", text),
+				"fline-reuse", map[string]interface{}{"case": json.RawMessage(caseJSON(h))})
+		}
+	}
 	rq, rp := reReq.FindStringSubmatchIndex(line), reRpl.FindStringSubmatchIndex(line)
 	enough := len(text) >= 14
 	termOK := term == "\r\n" || term == "\n" && true || term == "\r" && after != "" && after[0] != '\n'
@@ -760,7 +786,11 @@ func propC17(g *G, w *CaseW, rep *Report, thorough bool) {
 				}
 			}
 			var p paramAST
-			p.name = t.w(g.ptok(1, 6, m.extra))
+			if g.p(40) && m.sep == ';' {
+				p.name = t.w(g.caseMix(g.pick("transport", "lr", "maddr", "user", "method", "ttl")))
+			} else {
+				p.name = t.w(g.ptok(1, 6, m.extra))
+			}
 			p.all = p.name
 			shape := g.n(4)
 			if shape == 1 && m.term == " tok" {
@@ -876,11 +906,25 @@ func propC17(g *G, w *CaseW, rep *Report, thorough bool) {
 				}
 			}
 		}
-		// tokparam through the model as well
+		// tokparam through the model as well, one-shot and cut next to a special byte / at every byte
 		in2 := Input{Kind: kTokParam, Flags: m.flags, Buf: text}
 		c2 := inputCase(&in2, nil)
 		out2, _ := runCase(c2)
 		w.emitCase(c2, out2)
+		var every []int
+		for k := 1; k < len(text); k++ {
+			every = append(every, k)
+		}
+		for _, in3 := range []Input{in2, in} {
+			for _, cuts := range [][]int{every, g.cutsFor(0, text)} {
+				c3 := inputCase(&in3, cuts)
+				out3, r3 := runCase(c3)
+				w.emitCase(c3, out3)
+				if len(r3) == 1 && r3[0].Panic == "" {
+					oracleResume(rep, &in3, cuts, &r3[0])
+				}
+			}
+		}
 		rep.nontrivial(text)
 		if i < 3 {
 			rep.sample(replay)
